@@ -1202,6 +1202,28 @@ def r3(ctx, repo):
         ctx.check(bool(alts(e.recv) & stored) and res3.dominates(sf[0], e) and res3.unconditional(e), "R3", C3 + ":delegate",
                   "fit is delegated to the component selected by _set_forecaster",
                   "fit is not delegated to the freshly selected component (receiver %s)" % res3.fmt(e.recv), loc_of(e))
+        # the extra fit parameters handed on are those filed under the *selected* name (or none)
+        extra = e.kwargs.get("**")
+        if extra is not None:
+            verdicts = []
+            for a in alts(extra):
+                if isinstance(a, tuple) and a[:1] == ("dict",) and not a[1]:
+                    verdicts.append(True)
+                elif isinstance(a, tuple) and a[0] == "item" and a[2] == sel:
+                    verdicts.append(True)
+                elif isinstance(a, tuple) and a[0] == "item" and not mentions(res3, a[2], sel) and any(
+                        isinstance(x, tuple) and x[:1] in (("elem",), ("mu",)) for x in _subterms(a[2])):
+                    verdicts.append(False)
+                    ctx.violation("R3", C3 + ":fit-params-of-selected", "the selected forecaster is fitted with the fit parameters filed under %s, "
+                                  "a loop variable over the components, not under `selected_forecaster`" % res3.fmt(a[2]), loc_of(e),
+                                  witness={"fit_params": "{'a': {...}, 'b': {...}}, selected_forecaster='a' -> the parameters of 'b' are used"})
+                else:
+                    verdicts.append(None)
+            if verdicts and all(v is True for v in verdicts):
+                ctx.ok("R3", C3 + ":fit-params-of-selected", "extra fit parameters are those of the selected component (or none)", loc_of(e))
+            elif None in verdicts and False not in verdicts:
+                ctx.info("MultiplexForecaster.fit: the extra fit parameters (%s) are not compared with the selected name; the structural "
+                         "delegation rules remain" % res3.fmt(extra))
         b = e.bind(fsig(repo, "fit"))
         for p in ("y", "X", "fh"):
             if b is None:
